@@ -276,6 +276,10 @@ func (p *Properties) Pack(bufw *bytes.Buffer, packetType byte) {
 
 func (p *Properties) UnpackWillProperties(bufr *bytes.Buffer) error {
 	var err error
+	if bufr.Len() == 0 {
+		// the property length is omitted: no properties
+		return nil
+	}
 	length, err := EncodeRemainLength(bufr)
 	// 整个buffer最多只能读到length这么长
 	if err != nil {
@@ -334,6 +338,10 @@ func (p *Properties) UnpackWillProperties(bufr *bytes.Buffer) error {
 // of bytes used to store the Prop data and any error in decoding them
 func (p *Properties) Unpack(bufr *bytes.Buffer, packetType byte) error {
 	var err error
+	if bufr.Len() == 0 {
+		// the property length is omitted: no properties
+		return nil
+	}
 	length, err := EncodeRemainLength(bufr)
 	// 整个buffer最多只能读到length这么长
 	if err != nil {
